@@ -29,9 +29,10 @@ def check_world(ref, plants, mode, acc, key=None):
     """plants: [(start, length, reverse, offset, trailing)] (<= 4)"""
     queries, truths = [], {}
     for j, (s, l, rev, off, tr) in enumerate(plants):
-        q, truth = worlds.window_query(ref, s, l, rev, off, tr, qid=QIDS[j])
+        qid = ref[0] if j == 1 else QIDS[j]        # one query carries the SAME CMapId as the reference (separate id name spaces)
+        q, truth = worlds.window_query(ref, s, l, rev, off, tr, qid=qid)
         queries.append(q)
-        truths[QIDS[j]] = (truth, rev, l)
+        truths[qid] = (truth, rev, l)
     w = dict(refs=[ref], queries=queries)
     def far_pairs(o):
         return [(int(row.queryId), [p.queryShift for p in row.alignedPairs if abs(p.queryShift) > 200][:5])
@@ -79,6 +80,80 @@ def check_world(ref, plants, mode, acc, key=None):
     return found
 
 
+def check_correlation(ref, s, l, rev, acc):
+    """S1 at the seeding seam: the primary (normalised) and the secondary cross-correlation of a planted window are compared, value by
+    value, with an exact integer cross-correlation of the same bit vectors; the secondary maximum must sit on the true diagonal"""
+    import numpy as np
+    from mc.coma import OpticalMap
+    from src.correlation.sequence_generator import SequenceGenerator
+    (qid, qlen, qpos), truth = worlds.window_query(ref, s, l, rev, 777.7, 2500.0)
+    q = OpticalMap(qid, qlen, list(qpos)).trim()
+    r = OpticalMap(ref[0], int(ref[1]), list(ref[2]))
+    prim, sec = SequenceGenerator(1400, 1), SequenceGenerator(100, 4)
+    found = []
+    case = dict(kind='correlation', reference_id=ref[0], start=s, length=l, reverse=rev)
+    ia = q.getInitialAlignment(r, prim, 20000, 3, rev)
+    qs = np.asarray(q.getSequence(prim, rev)).astype(np.int64)
+    rs = np.asarray(r.getSequence(prim)).astype(np.int64)
+    brute = np.correlate(rs, qs, 'valid').astype(float)
+    norm = (np.correlate(rs, np.ones(len(qs), dtype=np.int64), 'valid') + qs.sum()) / 2.0
+    want = brute / norm
+    got = np.asarray(ia.correlation, dtype=float)
+    if got.shape != want.shape or not np.allclose(got, want, rtol=0, atol=1e-9):
+        found.append(('primary-correlation-not-exact', 'max abs difference %s' % (float(np.max(np.abs(got - want))) if got.shape == want.shape else 'shape'),
+                      'seeding', {}))
+    true_lag = ref[2][s]
+    for pk in ia.peaks:
+        sc = ia.refine(pk.position, sec, 16000, 27)
+        start = pk.position - 16000
+        q2 = np.asarray(q.getSequence(sec, rev)).astype(np.int64)
+        r2 = np.asarray(r.getSequence(sec, False, start, pk.position + q.length + 16000)).astype(np.int64)
+        if len(r2) < len(q2):
+            continue
+        b2 = np.correlate(r2, q2, 'valid').astype(float)
+        g2 = np.asarray(sc.correlation, dtype=float)
+        if g2.shape != b2.shape or not np.allclose(g2, b2, rtol=0, atol=1e-6):
+            found.append(('secondary-correlation-not-exact', 'window of %d labels: max abs difference %s (true overlap count %s, reported %s)' % (
+                l, float(np.max(np.abs(g2 - b2))) if g2.shape == b2.shape else 'shape', float(b2.max()), float(g2.max())), 'seeding', {}))
+            break
+        k = int(round((true_lag - start) / 100.0))
+        if 0 <= k < len(g2) and abs(int(np.argmax(g2)) - k) > 5 and abs(pk.position - true_lag) < 8000:
+            found.append(('secondary-maximum-off-the-true-diagonal', 'argmax bin %d, true bin %d' % (int(np.argmax(g2)), k), 'seeding', {}))
+    if acc is not None:
+        acc.evals += 1
+        acc.transitions += 1 + len(ia.peaks)
+        acc.state(('corr', l, rev, len(ia.peaks)))
+        acc.nontriv((ref[0], s, l, rev))
+        acc.classes['correlations-checked'] += 1 + len(ia.peaks)
+        for f in found:
+            acc.viol(f[0], case, f[1], f[2], f[3])
+        acc.sample(case)
+    return found
+
+
+class Correlation(core.Layer):
+    def __init__(self, name, refs, lengths, step, optional=False):
+        self.name, self.optional = name, optional
+        self.refs = refs
+        self.items = [(ri, s, l, rev) for ri, ref in enumerate(refs) for l in lengths for s in range(4, len(ref[2]) - 4 - l + 1, step)
+                      for rev in (False, True)]
+        self.chunk = 6
+        self.bounds = dict(references=[r[0] for r in refs], window_lengths=list(lengths), start_step=step, strands=['+', '-'])
+        self.rule = '%d planted windows: primary and secondary correlation compared with an exact integer cross-correlation' % len(self.items)
+
+    def nblocks(self):
+        return (len(self.items) + self.chunk - 1) // self.chunk
+
+    def run_block(self, b, acc):
+        for ri, s, l, rev in self.items[b * self.chunk:(b + 1) * self.chunk]:
+            acc.seq += 1
+            check_correlation(self.refs[ri], s, l, rev, acc)
+
+    def replay(self, case):
+        ref = next(r for r in self.refs if r[0] == case['reference_id'])
+        return check_correlation(ref, case['start'], case['length'], case['reverse'], None)
+
+
 class Windows(core.Layer):
     def __init__(self, name, ref, lengths, offsets, all_modes, optional=False, product=True, max_start=None):
         self.name, self.optional, self.ref = name, optional, ref
@@ -116,9 +191,11 @@ def layers(tier, seed):
         ls = (15, 16, 23, 30, 45)
         return [Windows('ref0', reference(0), ls, both, False, product=False), Windows('ref1', reference(1), ls, both, False, product=False),
                 Windows('dense-head', reference('dense'), (15, 22), both, False, product=False, max_start=9),
-                Windows('seed-ref', reference(0, seed % 50), (15, 45), both, False, product=False)]
+                Windows('seed-ref', reference(0, seed % 50), (15, 45), both, False, product=False),
+                Correlation('S1:correlation', [reference(0), reference('dense')], (15, 29, 36, 45), 4)]
     ls = tuple(range(15, 46))
     out = [Windows('ref%d' % k, reference(k), ls, both if k < 2 else (777.7,), True, optional=k >= 3) for k in range(8)]
     out.insert(2, Windows('dense-head', reference('dense'), ls, both, True, max_start=12))
     out.insert(4, Windows('seed-ref', reference(0, seed % 50), ls, (777.7,), True))
+    out.insert(0, Correlation('S1:correlation', [reference(k) for k in range(4)] + [reference('dense')], tuple(range(15, 46, 3)) + (29, 44), 2))
     return out
